@@ -126,57 +126,99 @@ Definition bt_exit (b:bt) (raised:bool) (s:st) : st :=
   | _ => s
   end.
 
-(* ------------------------------------------------------------------ run_migrations with a failure position *)
+(* ------------------------------------------------------------------ migration bodies, autocommit_block, failures *)
 
-Inductive fpos := FBody (j:nat)    (* the migration function raises before its j-th statement (j = length: after the last) *)
-                | FCallback.       (* an on_version_apply callback raises: after the bookkeeping, before the block exits    *)
-Record step := mkStep { s_body : list stmt; s_ver : list vop }.
+(* A migration function is a sequence of op.execute(...) statements, `with op.get_context().autocommit_block():`
+   sections and, where it fails, a `raise`.  The failure is part of the body: everything after it is dead code. *)
+Inductive aitem := AStmt (x:stmt) | ARaise.                            (* inside an autocommit section *)
+Inductive bitem := BStmt (x:stmt) | BAuto (xs:list aitem) | BRaise.
+Record step := mkStep {
+  s_body : list bitem;
+  s_ver : list vop;                (* bookkeeping statements of head_maintainer.update_to_step(step)           *)
+  s_cb_raises : bool               (* an on_version_apply callback raises: after the bookkeeping, inside the block *)
+}.
+
+(* What is raised.  KeyboardInterrupt and SystemExit derive from BaseException, not Exception.  Nothing below looks at
+   it: _ProxyTransaction.__exit__ hands (type, value, traceback) to SQLAlchemy's Transaction.__exit__, which commits only
+   when type is None and rolls back for every exception class; engine.begin()/connect() do the same. *)
+Inductive exc_kind := ExcException | ExcKeyboardInterrupt | ExcSystemExit.
 
 Definition stmt_isddl (x:stmt) : bool := match x with DDL _ => true | DML _ => false end.
 Definition stmt_eff (x:stmt) : eff := match x with DDL e => e | DML e => e end.
 
-Fixpoint run_body (k:kind) (body:list stmt) (fail:option nat) (s:st) : st * bool :=
-  match fail with
-  | Some O => (s, true)
-  | _ => match body with
-         | [] => (s, false)
-         | x :: r => run_body k r (option_map pred fail) (sa_exec k (stmt_isddl x) (AEff (stmt_eff x)) s)
-         end
+(* a statement on the connection switched to isolation_level="AUTOCOMMIT": durable at once (whatever was pending
+   is committed with it) *)
+Definition db_auto (a:act) (d:db) : db := mkDB (apply_act a (view d)) None.
+Definition sa_exec_auto (a:act) (s:st) : st := mkSt (db_auto a (s_db s)) (s_sa s) (s_al s).
+
+Fixpoint run_autos (xs:list aitem) (s:st) : st * bool :=
+  match xs with
+  | [] => (s, false)
+  | ARaise :: _ => (s, true)
+  | AStmt x :: r => run_autos r (sa_exec_auto (AEff (stmt_eff x)) s)
+  end.
+
+(* MigrationContext.autocommit_block, online branches:
+     _in_connection_transaction = self._in_connection_transaction()
+     if _in_connection_transaction: assert self._transaction is not None; self._transaction.commit(); self._transaction = None
+     self.connection = base_connection.execution_options(isolation_level="AUTOCOMMIT"); fake_trans = self.connection.begin()
+     try: yield
+     finally: fake_trans.commit(); restore the isolation level and the connection
+              if _in_connection_transaction: self._transaction = self.connection.begin()                      *)
+Definition autocommit_block (k:kind) (xs:list aitem) (s:st) : st * bool :=
+  let in_conn := s_sa s in
+  if in_conn && negb (s_al s) then (s, true)                         (* AssertionError: a caller-held transaction *)
+  else
+    let s1 := if in_conn then mkSt (s_db (sa_commit s)) false false else s in
+    let s2 := mkSt (s_db s1) true (s_al s1) in                       (* fake_trans *)
+    let '(s3, r) := run_autos xs s2 in
+    let s4 := mkSt (s_db s3) false (s_al s3) in                      (* finally: fake_trans.commit() *)
+    let s5 := if in_conn then (let b := sa_autobegin k s4 in mkSt (s_db b) true true) else s4 in
+    (s5, r).
+
+Fixpoint run_items (k:kind) (items:list bitem) (s:st) : st * bool :=
+  match items with
+  | [] => (s, false)
+  | BRaise :: _ => (s, true)
+  | BStmt x :: r => run_items k r (sa_exec k (stmt_isddl x) (AEff (stmt_eff x)) s)
+  | BAuto xs :: r => let '(s1, raised) := autocommit_block k xs s in
+                     if raised then (s1, true) else run_items k r s1
   end.
 
 Definition run_vops (k:kind) (vs:list vop) (s:st) : st :=
   fold_left (fun s v => sa_exec k false (AVop v) s) vs s.
 
-(* one iteration of `for step in self._migrations_fn(heads, self): with self.begin_transaction(_per_migration=True): ...` *)
-Definition run_step (k:kind) (c:mcfg) (sp:step) (fail:option fpos) (s:st) : st * bool :=
+(* one iteration of `for step in self._migrations_fn(heads, self): with self.begin_transaction(_per_migration=True): ...`:
+   step.migration_fn( **kw ); head_maintainer.update_to_step(step); callbacks *)
+Definition run_step (k:kind) (c:mcfg) (sp:step) (s:st) : st * bool :=
   let '(b, s1) := bt_enter k c true s in
-  let '(s2, r2) := run_body k (s_body sp) (match fail with Some (FBody j) => Some j | _ => None end) s1 in
-  let '(s3, r3) := if r2 then (s2, true)
-                   else (run_vops k (s_ver sp) s2, match fail with Some FCallback => true | _ => false end) in
+  let '(s2, r2) := run_items k (s_body sp) s1 in
+  let '(s3, r3) := if r2 then (s2, true) else (run_vops k (s_ver sp) s2, s_cb_raises sp) in
   (bt_exit b r3 s3, r3).
 
-Fixpoint run_steps (k:kind) (c:mcfg) (steps:list step) (fail:option (nat*fpos)) (s:st) : st * bool :=
+Fixpoint run_steps (k:kind) (c:mcfg) (steps:list step) (s:st) : st * bool :=
   match steps with
   | [] => (s, false)
   | sp :: r =>
-      let '(s', raised) := run_step k c sp (match fail with Some (O, p) => Some p | _ => None end) s in
-      if raised then (s', true)
-      else run_steps k c r (match fail with Some (S n, p) => Some (n, p) | _ => None end) s'
+      let '(s', raised) := run_step k c sp s in
+      if raised then (s', true)                                      (* the exception propagates: remaining steps skipped *)
+      else run_steps k c r s'
   end.
 
-Definition run_migrations (k:kind) (c:mcfg) (steps:list step) (fail:option (nat*fpos)) (s:st) : st * bool :=
+Definition run_migrations (k:kind) (c:mcfg) (steps:list step) (s:st) : st * bool :=
   let s1 := sa_autobegin k s in                                     (* get_current_heads(): _has_version_table + SELECT *)
   let v := view (s_db s1) in
   let heads := if vt v then vrows v else [] in
   let s2 := match heads with [] => ensure_version_table k s1 | _ => s1 end in
-  run_steps k c steps fail s2.
+  run_steps k c steps s2.
 
 (* ------------------------------------------------------------------ env.py + command *)
 
 Record input := mkIn {
   i_kind : kind; i_tddl : bool; i_per_mig : bool;
   i_external : bool;                 (* env.py uses `with engine.begin() as connection` instead of engine.connect() *)
-  i_steps : list step; i_fail : option (nat * fpos); i_db0 : dbstate
+  i_steps : list step; i_db0 : dbstate;
+  i_exc : exc_kind                   (* the class of the exception the failing migration raises *)
 }.
 Record output := mkOut { o_db : dbstate; o_raised : bool }.
 
@@ -186,7 +228,7 @@ Definition txn_run (i:input) : output :=
   let s1 := if i_external i then sa_autobegin k s0 else s0 in
   let c := mkMcfg (i_tddl i) (i_per_mig i) (s_sa s1) false in      (* MigrationContext.__init__ *)
   let '(b, s2) := bt_enter k c false s1 in                         (* with context.begin_transaction(): *)
-  let '(s3, raised) := run_migrations k c (i_steps i) (i_fail i) s2 in
+  let '(s3, raised) := run_migrations k c (i_steps i) s2 in
   let s4 := bt_exit b raised s3 in
   let s5 := if i_external i then (if raised then sa_rollback s4 else sa_commit s4) else s4 in
   let s6 := sa_rollback s5 in                                      (* the connection is closed *)
